@@ -174,3 +174,48 @@ def extract_all(ts):
     for t in ts:
         grammar.extract(t, g, lex)
     return g, lex
+
+
+# ---- canonical forms for comparisons where the properties call an order irrelevant ------------------------------------
+
+def _canon_lex_line(tok):
+    """one encoded line of a lexicon file  WORD<TAB>TAG COUNT TAG COUNT ... : the (tag, count) pairs in sorted order"""
+    try:
+        line = proto.dec_s(tok)
+        word, rest = line.split("\t", 1)
+        parts = rest.split(" ")
+        pairs = sorted(zip(parts[0::2], parts[1::2]))
+        if len(parts) % 2:
+            return tok
+        return proto.enc_s(word + "\t" + " ".join("%s %s" % p for p in pairs))
+    except Exception:
+        return tok
+
+
+def canon_line_files(lexfiles=()):
+    """files that represent SETS of lines (RCG clauses, LoPar rules, lexicon entries): lines sorted; in the files whose
+    position is listed in `lexfiles` the tag/count pairs of a line are sorted too"""
+    def canon(s):
+        out = []
+        for k, f in enumerate(s.split(" # ")):
+            toks = f.split(",") if f not in ("-", "none") else [f]
+            if k in lexfiles:
+                toks = [_canon_lex_line(t) for t in toks]
+            out.append(",".join(sorted(toks)))
+        return " # ".join(out)
+    return canon
+
+
+def canon_lexicon_part(s):
+    """`<grammar> # <lexicon>` as printed by enc_grammar/enc_lexicon: the lexicon is a map word -> tag -> count, the
+    order of its entries is nobody's business"""
+    if " # " not in s:
+        return s
+    g, lx = s.rsplit(" # ", 1)
+    ents = []
+    for e in lx.split(";") if lx else []:
+        if ">" in e:
+            w, tags = e.split(">", 1)
+            e = w + ">" + ",".join(sorted(tags.split(",")))
+        ents.append(e)
+    return g + " # " + ";".join(sorted(ents))
